@@ -525,6 +525,18 @@ func (e *Env) verifyFunc(it *Item) {
 		e.useAt(fr, "return", site.st)
 		if site.tag != "" {
 			e.useAt(fr, "return "+strings.TrimPrefix(site.tag, "@ret"), site.st)
+			// vacuity guard per return site: a path that the assumptions made along it (callee
+			// post-conditions, frames) rule out would make its post-conditions hold trivially.
+			// Sites listed in `opt dead-returns` are known to be unreachable under the contract.
+			dead := false
+			for _, d := range strings.Split(it.Opts["dead-returns"], ",") {
+				if strings.TrimSpace(d) == strings.TrimPrefix(site.tag, "@ret") {
+					dead = true
+				}
+			}
+			if !dead {
+				e.cover("return"+site.tag, site.st.pc)
+			}
 		}
 		post := &SpecCtx{e: e, st: site.st, old: entry, vars: pv, pkg: pkg}
 		for i, c := range it.Clauses {
